@@ -362,11 +362,18 @@ func (ip *Interp) loadDyn(st *State, p *Ptr, t types.Type) Val {
 			return acc
 		}
 	}
+	// an unknown cell: identified by object, index term and the store epoch, so that
+	// two reads of the same cell without an intervening store are the same value
+	if w, sg, ok := IntType(t); ok && di == len(p.Path)-1 {
+		key := fmt.Sprintf("mem%d(%s%s)[%s]", ip.storeEpoch, p.Obj.Name, PrettyPath(p.Obj.T, p.Path[:di]), idx.Lin.Key())
+		return NewSym(w, ip.In.Atom(key, w, mask(w)), sg) // memory content: a base unknown of its own
+	}
 	return ip.topOf(t, "load["+idx.Lin.Key()+"]"+p.Obj.Name+PathKey(p.Path[:di]))
 }
 
 // Store writes v of type t at p.
 func (ip *Interp) Store(st *State, p *Ptr, t types.Type, v Val) {
+	ip.storeEpoch++
 	if p.Nil == TriT || p.Obj == nil {
 		ip.Imprecise("store through nil/unknown pointer")
 		return
